@@ -255,6 +255,21 @@ def run(index, rep, tier):
                                       "%s rebinds `%s`, which it changes in place, to the saved snapshot `%s` itself (`%s`): from then on appending to / removing from the working list edits the snapshot, so a second restart in the same call resumes with tips that belong to the abandoned attempt and the final pruning fails (or the tree carries lineages it should not)" % (f.qualname, a.targets[0].id, v.id, norm_stmt(a)[:60]))
         rep.floor("R18.9", "restarts from a saved snapshot in the simulators", 2, nre)
 
+    # ---- R18.10 a chooser always chooses
+    with rep.section("R18.10"):
+        rep.rule("R18.10", "a chooser always chooses: every function of the probability module that returns a value returns one on every normal path - none can fall off the end (floating-point rounding in `rnd -= w` can leave the running remainder non-negative after the last weight, for generator outputs just below 1)")
+        nch = 0
+        for f in index.functions_in_module("dendropy.calculate.probability"):
+            rets = [r for r in walk_no_nested(f.node) if isinstance(r, ast.Return) and r.value is not None and not is_none(r.value)]
+            if not rets or any(isinstance(y, (ast.Yield, ast.YieldFrom)) for y in walk_no_nested(f.node)):
+                continue
+            nch += 1
+            g = cfg_of(f)
+            fall = [nd for nd in g.reach([g.entry], follow_exc=False) if any(t is g.exit and lab != "e" for lab, t in nd.succ) and not (nd.kind == "stmt" and isinstance(nd.ast, (ast.Return, ast.Raise)))]
+            rep.check(not fall, "R18.10", f.qualname, "can fall off the end and return None", fn_where(f, fall[0].stmt if fall and fall[0].stmt is not None else None), "%s returns a value on every normal path" % f.qualname,
+                      "%s returns a value inside its loop but can also leave the loop and fall off the end, returning None: with the running remainder `rnd` reduced weight by weight, rounding can leave it >= 0 after the last weight for a generator output just below 1.0 (a legitimate Random.random() value), and the simulators then index a list with None - birth_death_tree dies with TypeError for that generator state" % f.qualname)
+        rep.floor("R18.10", "value-returning functions of the probability module", 5, nch)
+
 
 def _distinct_labels_rule(index, rep):
     """R18.3: `require_taxon(label=L)` returns an *existing* taxon when the label is taken, so a
